@@ -19,6 +19,14 @@ func genScenario(t *rapid.T, kind string) LeaseScenario {
 	case "hold":
 		s.Periods = rapid.IntRange(3, vstat.Pick(6, 10)).Draw(t, "periods")
 		s.DelayPct = rapid.SampledFrom([]int{0, 0, 5, 10, 15}).Draw(t, "delayPct")
+		// the record lives a full lease from the moment the renewal CALL is made (that is when the library computes the new
+		// expiry); the next call is made half a lease after the reply and reaches the storage one request latency later:
+		// 2 x request latency + reply latency must stay well below half a lease (30% here, as for the request latency alone)
+		s.ReplyPct = rapid.SampledFrom([]int{0, 0, 5, 10, 15, 20}).Draw(t, "replyPct")
+		if 2*s.DelayPct+s.ReplyPct > 30 {
+			s.ReplyPct = 30 - 2*s.DelayPct
+		}
+		s.HonourAll = rapid.Bool().Draw(t, "honourCtxWhileOnTheWay")
 		switch rapid.IntRange(0, 6).Draw(t, "faults") {
 		case 0: // fault free
 		case 1, 2, 3: // one failing renewal call, any k
@@ -48,9 +56,10 @@ func genScenario(t *rapid.T, kind string) LeaseScenario {
 		// (a failed attempt costs lease/8 plus twice the latency: after lease/2 + lease/8 + 3 x latency the record must still be alive)
 		switch {
 		case len(s.FailCas) >= 2 && s.FailCas[1] == s.FailCas[0]+1:
-			s.DelayPct = 0
+			s.DelayPct, s.ReplyPct = 0, 0
 		case len(s.FailCas) > 0:
 			s.DelayPct = min(s.DelayPct, 5)
+			s.ReplyPct = min(s.ReplyPct, 5-s.DelayPct)
 		}
 		s.Acquire = rapid.SampledFrom([]string{"", "", "lockctx", "trylock", "lockctx-deadline", "trylock-deadline"}).Draw(t, "acquire")
 		s.ErrKind = rapid.IntRange(0, 5).Draw(t, "errKind")
@@ -79,6 +88,18 @@ func genScenario(t *rapid.T, kind string) LeaseScenario {
 	case "relock":
 		s.After = rapid.Bool().Draw(t, "after")
 		s.HoldCreate = rapid.Bool().Draw(t, "holdCreate")
+		s.Early = !s.HoldCreate && rapid.Bool().Draw(t, "replyBeforeRelock")
+		if s.Early {
+			s.Wait10 = rapid.SampledFrom([]int{0, 1, 1, 2, 5, 10}).Draw(t, "hundredthsBeforeRelock")
+			s.Busy = rapid.Bool().Draw(t, "poolWorkerBusyAcrossDueTime")
+		}
+		s.Warm = rapid.SampledFrom([]int{0, 0, 3, 8}).Draw(t, "warm")
+		if rapid.Bool().Draw(t, "faultsInSecondTenure") {
+			s.FailCas = []int{rapid.IntRange(2, 4).Draw(t, "k")}
+			s.DelayPct = rapid.SampledFrom([]int{0, 3, 5}).Draw(t, "delayPct")
+			s.ReplyPct = rapid.SampledFrom([]int{0, 2, 4}).Draw(t, "replyPct")
+			s.ErrKind = rapid.IntRange(0, 5).Draw(t, "errKind")
+		}
 	case "sharedhandoff":
 		s.Wait10 = rapid.IntRange(1, 9).Draw(t, "wait10")
 		s.After = rapid.Bool().Draw(t, "requestDelayed")
@@ -117,7 +138,10 @@ func recordLease(s LeaseScenario, info LeaseInfo) {
 		cl = append(cl, "verdict_dropped_machine_overloaded")
 	}
 	if s.Kind == "hold" {
-		cl = append(cl, fmt.Sprintf("hold_injected_failures:%d", info.InjectedFailures), fmt.Sprintf("hold_renewal_latency_pct:%d", s.DelayPct))
+		cl = append(cl, fmt.Sprintf("hold_injected_failures:%d", info.InjectedFailures), fmt.Sprintf("hold_renewal_latency_pct:%d", s.DelayPct), fmt.Sprintf("hold_renewal_reply_latency_pct:%d", s.ReplyPct))
+		if s.HonourAll {
+			cl = append(cl, "hold_storage_honours_ctx_while_call_on_its_way")
+		}
 	}
 	if s.Kind == "death" {
 		cl = append(cl, fmt.Sprintf("death_waiters:%d", max(1, s.Waiters)))
@@ -135,7 +159,10 @@ func recordLease(s LeaseScenario, info LeaseInfo) {
 		cl = append(cl, "hold_acquired_with_context_cancelled_afterwards:"+s.Acquire)
 	}
 	if s.Kind == "relock" {
-		cl = append(cl, fmt.Sprintf("relock_applied_before_unlock:%v_create_in_flight:%v", s.After, s.HoldCreate))
+		cl = append(cl, fmt.Sprintf("relock_applied_before_unlock:%v_create_in_flight:%v_reply_before_relock:%v_pool_busy:%v", s.After, s.HoldCreate, s.Early, s.Busy))
+		if len(s.FailCas) > 0 {
+			cl = append(cl, "relock_transient_renewal_failure_in_second_tenure")
+		}
 	}
 	if s.Kind == "unlockfail" {
 		cl = append(cl, fmt.Sprintf("unlockfail_delete_applied:%v_renewal_in_flight:%d", s.Applied, s.InFlight))
@@ -215,6 +242,17 @@ func TestC05EveryK(t *testing.T) {
 	}
 	runBatch(t, "TestC05EveryK", batch)
 	batch = nil
+	// a transient renewal failure in the second tenure of a re-locked Locker, with and without a late reply of the first
+	// tenure's renewal arriving before the re-lock while another user keeps the timer pool busy; at most three at a time:
+	// each of these scenarios parks a worker of the process-wide timer pool
+	for _, k := range []int{2, 3} {
+		var small []LeaseScenario
+		for _, after := range []bool{false, true} {
+			small = append(small, LeaseScenario{Kind: "relock", LeaseMs: lease, After: after, Early: true, Wait10: 1, FailCas: []int{k}, DelayPct: 3, ReplyPct: 3, Busy: true})
+		}
+		small = append(small, LeaseScenario{Kind: "relock", LeaseMs: lease, After: k == 2, FailCas: []int{k}, DelayPct: 5})
+		runBatch(t, "TestC05EveryK", small)
+	}
 	batch = append(batch, LeaseScenario{Kind: "relock", LeaseMs: lease, After: true, HoldCreate: true}, LeaseScenario{Kind: "relock", LeaseMs: lease, After: false, HoldCreate: false})
 	for _, h := range []int{2, 7} {
 		batch = append(batch, LeaseScenario{Kind: "unlockfail", LeaseMs: lease, Hold10: h}, LeaseScenario{Kind: "unlockfail", LeaseMs: lease, Hold10: h + 4, Applied: true})
@@ -241,6 +279,7 @@ func TestC05EveryK(t *testing.T) {
 	batch = append(batch, LeaseScenario{Kind: "hold", LeaseMs: lease, Periods: 4, Blocking: true, FailCreate: []int{2, -5, 9}}, LeaseScenario{Kind: "hold", LeaseMs: lease, Periods: 4, Blocking: true})
 	for _, pct := range []int{10, 15} { // a slow (but answering) storage: every renewal call takes 10-15% of the lease
 		batch = append(batch, LeaseScenario{Kind: "hold", LeaseMs: lease, Periods: 6, DelayPct: pct})
+		batch = append(batch, LeaseScenario{Kind: "hold", LeaseMs: lease, Periods: 6, ReplyPct: pct + 5, HonourAll: true}, LeaseScenario{Kind: "hold", LeaseMs: lease, Periods: 5, DelayPct: pct - 5, ReplyPct: 30 - 2*(pct-5), HonourAll: pct == 15})
 	}
 	for _, w := range []int{6, 12, 22} {
 		batch = append(batch, LeaseScenario{Kind: "waithold", LeaseMs: lease, Wait10: w})
